@@ -632,10 +632,10 @@ static uint64_t fnv_u64(uint64_t h, uint64_t v)
 
 /* write the four dsqdata files by hand (format of esl_dsqdata_Write), so that accessions and taxonomy ids - which no
  * text sequence format carries - are exercised too; packing uses the real dsqdata_pack5/pack2 */
-static int raw_write(const char *base, int amino, int n, BYTES *names, BYTES *accs, BYTES *descs, int32_t *taxids, BYTES *dsqs)
+static int raw_write(const char *base, int amino, int rna, int n, BYTES *names, BYTES *accs, BYTES *descs, int32_t *taxids, BYTES *dsqs)
 {
   char path[300]; FILE *ifp, *mfp, *sfp, *stub; int i;
-  uint32_t magic = eslDSQDATA_MAGIC_V1, tag = 123456789u, alphatype = amino ? eslAMINO : eslDNA, flags = 0;
+  uint32_t magic = eslDSQDATA_MAGIC_V1, tag = 123456789u, alphatype = amino ? eslAMINO : rna ? eslRNA : eslDNA, flags = 0;
   uint32_t mxn = 0, mxa = 0, mxd = 0; uint64_t mxl = 0, nseq = n, nres = 0; int64_t spos = 0, mpos = 0;
   snprintf(path, sizeof(path), "%s.dsqi", base); ifp = fopen(path, "wb");
   snprintf(path, sizeof(path), "%s.dsqm", base); mfp = fopen(path, "wb");
@@ -680,7 +680,7 @@ static void op_dsqrt(void)
   BYTES *names, *descs, *dsqs, *accs = NULL; int n1, n2, n3, n4 = 0, i, k, bad = -1, miss = 0, st;
   int raw = (h_arg("writer") && strcmp(h_arg("writer"), "raw") == 0);
   int32_t *taxids = NULL;
-  ESL_ALPHABET *abc = esl_alphabet_Create(strcmp(abcname, "amino") == 0 ? eslAMINO : eslDNA);
+  ESL_ALPHABET *abc = esl_alphabet_Create(strcmp(abcname, "amino") == 0 ? eslAMINO : strcmp(abcname, "rna") == 0 ? eslRNA : eslDNA);
   ESL_SQFILE *sqfp = NULL; FILE *fp; char base[256], fa[300], path[300], errbuf[eslERRBUFSIZE];
   pthread_t th[8]; CARG ca[8]; void *r;
   char *cstr; size_t clen = 0; uint64_t h = 0xcbf29ce484222325ull; int nchunks = 0;
@@ -702,7 +702,7 @@ static void op_dsqrt(void)
   }
   snprintf(base, sizeof(base), "c12_%d.db", (int) getpid()); snprintf(fa, sizeof(fa), "%s.fa", base);
   if (raw) {
-    if (raw_write(base, strcmp(abcname, "amino") == 0, n1, names, accs, descs, taxids, dsqs) != eslOK) { h_out("esys"); goto CLEAN; }
+    if (raw_write(base, strcmp(abcname, "amino") == 0, strcmp(abcname, "rna") == 0, n1, names, accs, descs, taxids, dsqs) != eslOK) { h_out("esys"); goto CLEAN; }
     goto WRITTEN;
   }
   if ((fp = fopen(fa, "w")) == NULL) { h_out("esys"); goto DONE; }
